@@ -17,6 +17,7 @@ m = {
   {"name": "hypothesis+execdrv", "path": "lib/pbt.py", "kind_free_text": "Hypothesis strategies / state machines driving the real libsnoopy.so through a preloaded driver with a recording execv/execve", "serves_properties": sorted(c["property_id"] for c in CHECKS if c.get("engine") == "hypothesis+execdrv")},
   {"name": "libfuzzer+hypothesis", "path": "harness/fuzz_exec.cpp", "kind_free_text": "libFuzzer target over (config bytes, exec request) against the clang ASan/UBSan build; Hypothesis boundary sweep through execdrv", "serves_properties": sorted(c["property_id"] for c in CHECKS if c.get("engine") == "libfuzzer+hypothesis")},
   {"name": "strace-injection+execdrv", "path": "lib/trace.py", "kind_free_text": "execdrv oneshot mode under strace: window markers, per-call error injection, syscall log", "serves_properties": sorted(c["property_id"] for c in CHECKS if c.get("engine") == "strace-injection+execdrv")},
+  {"name": "libsched+execdrv", "path": "harness/sched.c", "kind_free_text": "pthread_mutex_lock/unlock interposer: parking at the k-th event (C10), cooperative scheduler with generated preemption lists (C09)", "serves_properties": sorted(c["property_id"] for c in CHECKS if c.get("engine") == "libsched+execdrv")},
   {"name": "hypothesis+snoopyctl", "path": "lib/preload.py", "kind_free_text": "exhaustive + Hypothesis-generated ld.so.preload contents against the real snoopyctl binary", "serves_properties": sorted(c["property_id"] for c in CHECKS if c.get("engine") == "hypothesis+snoopyctl")},
   {"name": "strace-injection+snoopyctl", "path": "checks/C20.py", "kind_free_text": "enumerated crash points / failing write calls via strace -e inject", "serves_properties": sorted(c["property_id"] for c in CHECKS if c.get("engine") == "strace-injection+snoopyctl")},
  ],
